@@ -34,7 +34,7 @@ for l in kf:
 out.append("\n### 0.5 Known findings (recorded, not repaired)\n")
 for l in kf:
     if l.startswith('known:'):
-        m = re.match(r'known: property=(\S+) obligation=(\S+) signature=\S+ :: (.*)', l)
+        m = re.match(r'known: property=(\S+) obligation=(.+?) signature=\S+ :: (.*)', l)
         if m:
             out.append("- **%s** `%s` — %s" % (m.group(1), m.group(2), m.group(3)))
 out.append("\n### 0.6 Which check catches which seeded change\n")
